@@ -43,6 +43,9 @@ pub fn eval_with_context<C: Context>(
     string: &str,
     context: &C,
 ) -> EvalexprResultValue<C::NumericTypes> {
+    #[cfg(evalexpr_verif)]
+    return build_operator_tree(string)?.eval_with_context(context);
+    #[cfg(not(evalexpr_verif))]
     tree::tokens_to_operator_tree(token::tokenize(string)?)?.eval_with_context(context)
 }
 
@@ -65,6 +68,9 @@ pub fn eval_with_context_mut<C: ContextWithMutableVariables>(
     string: &str,
     context: &mut C,
 ) -> EvalexprResultValue<C::NumericTypes> {
+    #[cfg(evalexpr_verif)]
+    return build_operator_tree(string)?.eval_with_context_mut(context);
+    #[cfg(not(evalexpr_verif))]
     tree::tokens_to_operator_tree(token::tokenize(string)?)?.eval_with_context_mut(context)
 }
 
@@ -95,6 +101,13 @@ pub fn eval_with_context_mut<C: ContextWithMutableVariables>(
 pub fn build_operator_tree<NumericTypes: EvalexprNumericTypes>(
     string: &str,
 ) -> EvalexprResult<Node<NumericTypes>, NumericTypes> {
+    #[cfg(evalexpr_verif)]
+    {
+        let result = token::tokenize(string).and_then(tree::tokens_to_operator_tree);
+        crate::verif::built(string, &result);
+        return result;
+    }
+    #[cfg(not(evalexpr_verif))]
     tree::tokens_to_operator_tree(token::tokenize(string)?)
 }
 
